@@ -781,3 +781,20 @@ pub struct HeaderBodyLastStruct {
     pub inner: Labelled,
 }
 specimen!(HeaderBodyLastStruct, |r| HeaderBodyLastStruct { n: g(r), inner: g(r) });
+
+/// A type with a replaced, record-like body in attribute position.
+#[derive(Form, Debug, PartialEq, Clone)]
+pub struct AttrOfBodyVec {
+    #[form(attr)]
+    pub a: BodyVec,
+    pub x: i32,
+}
+specimen!(AttrOfBodyVec, |r| AttrOfBodyVec { a: g(r), x: g(r) });
+
+#[derive(Form, Debug, PartialEq, Clone)]
+pub struct AttrOfBodyStruct {
+    #[form(attr)]
+    pub a: BodyStruct,
+    pub x: i32,
+}
+specimen!(AttrOfBodyStruct, |r| AttrOfBodyStruct { a: g(r), x: g(r) });
